@@ -140,7 +140,7 @@ theorem go_wrapper_level_eq (z : Zap) (c : Core) (m : Level) :
     GoLog.customLevelCoreWrapper.Level z c m = Core.level (.custom c m) := rfl
 
 /-- `Check` adds the wrapper itself (whose `Write` is the embedded core's) exactly when the wrapper's
-level admits the entry -/
+level lets the entry through -/
 theorem go_wrapper_check_eq {κ : Type} (addCore : κ → Entry → Core → κ) (z : Zap) (c : Core) (m : Level)
     (ent : Entry) (ce : κ) :
     GoLog.customLevelCoreWrapper.Check addCore z c m ent ce =
